@@ -170,6 +170,16 @@ def run(ck):
     for depth in (1000, 1022, 1023, 1024, 1030, 5000):
         src = "n := 0\nf := func() { n += 1; if n > %d { return 0 }; return f() + 0 }\nr := f()\n" % depth
         rec.append({"id": len(rec) + 1, "src": src, "inputs": [], "mods": [], "pend": -1, "depth": depth})
+    # frames pushed by calls that are not self calls: mutual recursion, one slot per frame
+    for depth in (1000, 1030, 3000):
+        src = ("n := 0\ng := undefined\nf := func() { n += 1; if n > %d { return 0 }; return g() + 0 }\n"
+               "g = func() { n += 1; if n > %d { return 0 }; return f() + 0 }\nr := f()\n" % (depth, depth))
+        rec.append({"id": len(rec) + 1, "src": src, "inputs": [], "mods": [], "pend": -1, "depth": depth})
+        src3 = ("n := 0\ng := undefined\nh := undefined\nf := func() { n += 1; if n > %d { return 0 }; return g() + 0 }\n"
+                "g = func() { n += 1; if n > %d { return 0 }; return h() + 0 }\nh = func() { n += 1; if n > %d { return 0 }; return f() + 0 }\nr := f()\n" % (depth, depth, depth))
+        rec.append({"id": len(rec) + 1, "src": src3, "inputs": [], "mods": [], "pend": -1, "depth": depth})
+        srcv = "n := 0\nf := func(...a) { n += 1; if n > %d { return 0 }; return f(a...) + 0 }\nr := f()\n" % depth
+        rec.append({"id": len(rec) + 1, "src": srcv, "inputs": [], "mods": [], "pend": -1, "depth": depth})
     rr = vlib.run_cases(ck, "deep", rec, nproc=6)
     for c in rec:
         o = rr[c["id"]]
